@@ -9,6 +9,27 @@ CLAIMED = {
  "C01": ("rawx", "explicit-state BFS over operation histories of the real rawdb against a per-name byte-vector model, state dedup on full implementation state",
          "All operation histories of four alphabets (allocation/reuse, positional edits, naming, everything) up to the stated depths are executed on the real Database; after every step all regions are read back through the real Reader and compared with an independent byte vector per name. Exhaustive within the bound, so any history of that size that corrupts, loses or aliases region bytes is found.",
          "Bounded: <=3 names, listed sizes/offsets, depth per profile (see evidence). Single thread. tmpfs scratch files. The model (a map of byte vectors) is trusted.", "5/C01"),
+ "C03": ("vecx", "explicit-state BFS over vector operation histories on every real format against a list-of-optional-values model, state dedup on full implementation state",
+         "All histories of push/truncate/write/reset/re-import (plus update/delete/take/fill on raw formats) up to the stated depth are executed on each real format (Bytes, ZeroCopy, Pco, LZ4, Zstd, EagerVec wrappers; several element types in the thorough tier); after every step length, every element, deleted slots and stamp are compared with the model. All formats are checked against the same model, so they agree with each other.",
+         "Bounded: push sizes {1,2,3,7} (raw) / {1,2,P-1,P,P+1} (paged), index classes around 0, stored length, page capacity and length; depth per exploration in the evidence. Element values from a position/epoch pattern.", "5/C03"),
+ "C04": ("vecx", "explicit-state BFS over commit/edit/rollback histories on the real vectors against a model of committed snapshots",
+         "All histories of edits, stamped commits, rollback, rollback_before, clean writes and re-imports up to the stated depth (retention 10, <=3-4 commits) on raw and compressed vectors; after every step the contents, deleted slots and stamp must equal the model's committed snapshot chain, and exploration continues after every rollback.",
+         "Bounded as listed in the evidence. rollback/rollback_before are issued from committed states only; unstamped writes only from clean states (DESIGN 5/C04). Recorded defects F3, F4 are cut and printed as KNOWN-FINDING.", "5/C04"),
+ "C07": ("vecx", "explicit-state BFS over write/truncate/re-import histories on the real compressed vectors with an independent parser of the on-disk page index",
+         "Same exploration as C03 restricted to Pco/LZ4/Zstd with chunk sizes around the page capacity; values must round-trip bit-exactly and after every step the page-index region is parsed independently of the library and checked: gap-free from the header, inner pages full and compressed, counts add up to the stored length, data region ends with the last page.",
+         "Bounded as listed. The complete value-space sweep (all f32/u16 bit patterns) is not part of this check yet.", "5/C07"),
+ "C08": ("vecx", "explicit-state BFS over vector histories; in every reached state an enumerated battery of every read API x boundary ranges x index lists is compared with the model",
+         "In every state reached by the C03 and C04 alphabets (bounded depth) every reading API (collect*, fold*, try_fold with and without early exit, for_each*, read_into, min/max, signed ranges, collect_one/first/last, sorted reads over all subsets of six boundary indices, cursor next/get/advance+fold, read-only and boxed clones, CachedVec, VecReader, fold_stored_io/mmap, and the generic entry points forced onto the file-IO back-end) is called for all pairs of boundary indices (including reversed, out-of-range and usize::MAX) and compared with the model; any panic is a violation.",
+         "Stored-only views are compared with the stored layer (last written contents) and only issued, not value-compared, right after a rollback. Cursor paths on vectors with deleted slots (recorded defect F8) are exercised in a dedicated exploration under a watchdog.", "5/C08"),
+ "C13": ("rawx+vecx", "explicit-state BFS with every refusable request issued in every reached state; refusal must leave the complete state key unchanged",
+         "In every state reached (bounded depth) of the rawdb and vecdb alphabets each refusable request is issued: write beyond the end, truncate beyond the length, rename onto an existing name, remove/retain of a referenced region, Region::flush of a never-written region, checked push at a wrong index, update beyond the end, import with another version or format, rollback without a usable record. The call must fail and the complete canonical state (contents, names, allocator state, dirty flags, buffers, change records) must be identical; since the key determines all later behaviour, so is every continuation.",
+         "Bounded as listed. Error variants are compared loosely where the statement does not name one.", "5/C13"),
+ "C16": ("vecx", "explicit-state BFS over commit/rollback histories for retention 0..3 with enumerated single-file faults on the change directory",
+         "For retention k in {0,1,2,3}: all commit/rollback/rollback_before histories up to the stated depth, and in every state with a usable record every single-file fault (delete; truncate at every 8th - thorough: every - byte offset; each length field overwritten with 2^32, 2^63, u64::MAX, 1000003) followed by a rollback. Oracle: number of possible rollbacks, directory never holds more than k records nor an abandoned future record, failed rollback leaves the full state unchanged, success only ever lands on the committed snapshot.",
+         "A damaged record whose damage is immaterial (rollback still lands exactly on the committed snapshot) is accepted. Process aborts are isolated per operation and reported as violations.", "5/C16"),
+ "C20": ("vecx", "explicit-state BFS over vector histories; every byte range fetched during the read battery (access tap) is checked against the owning region's current length",
+         "The cfg(anydb_verif) access tap reports every mmap/file read made on behalf of a vector (Reader reads, raw pointer reads, native-layout memcpy, VecReader, zero-copy refs, both IO sources). During the C08 battery in every reached state (including states right after a rollback, where the logical length exceeds the on-disk length, and their read-only clones) each reported range must lie inside one of the vector's own regions and below its current length.",
+         "Completeness of the tap (14 sites) is by inspection of the read paths. Recorded defect F5 is printed as KNOWN-FINDING.", "5/C20"),
  "C02": ("rawx", "explicit-state BFS over operation histories of the real rawdb with extent/partition invariants and the placement rule checked in every reached state",
          "Same exploration as C01 plus initial file sizes (open_with_min_len, set_min_regions); in every reached state the live extents, free extents, deferred extents and reservations are swept for alignment, disjointness, exact partition of the allocated area, merged neighbours and index consistency, and each placement is checked against the free extents that existed before it.",
          "Bounded as C01. Invariants read internal layout state through cfg(anydb_verif) accessors.", "5/C02"),
@@ -46,6 +67,7 @@ def main():
       },
       "engines": [
         {"name":"rawx","path":"harness/mc/src/rawx.rs","serves_properties":["C01","C02","C10","C12","C13"],"kind_free_text":"explicit-state BFS over region-operation histories on the real rawdb (worker processes re-execute histories; parent owns frontier and seen-set)"},
+        {"name":"vecx","path":"harness/mc/src/vecx.rs","serves_properties":["C03","C04","C07","C08","C13","C16","C20"],"kind_free_text":"explicit-state BFS over vector-operation histories on every real vecdb format, with read battery (vecreads.rs), access-bound tap and change-record fault enumeration"},
       ],
       "checks": checks,
       "not_applicable": na,
